@@ -289,10 +289,18 @@ var $newType = (size, kind, string, named, pkg, exported, constructor) => {
                 typ.ptr.nil.$val = typ.ptr.nil;
                 /* methods for embedded fields */
                 $addMethodSynthesizer(() => {
-                    var synthesizeMethod = (target, m, f) => {
+                    var synthesizeMethod = (target, m, f, viaPtr) => {
                         if (Object.prototype.hasOwnProperty.call(target.prototype, m.prop)) { return; }
                         target.prototype[m.prop] = function(...args) {
-                            var v = this.$val[f.prop];
+                            var s = this.$val;
+                            var v = s[f.prop];
+                            if (viaPtr && f.typ.kind !== $kindStruct) {
+                                /* a pointer-receiver method of a non-struct field type: call it on a pointer to the field */
+                                var ptr = (f.typ.kind === $kindArray) ?
+                                    new ($ptrType(f.typ))(v) :
+                                    new ($ptrType(f.typ))(() => s[f.prop], x => { s[f.prop] = x; });
+                                return ptr[m.prop](...args);
+                            }
                             if (f.typ === $jsObjectPtr) {
                                 v = new $jsObjectPtr(v);
                             }
@@ -309,7 +317,7 @@ var $newType = (size, kind, string, named, pkg, exported, constructor) => {
                                 synthesizeMethod(typ.ptr, m, f);
                             });
                             $methodSet($ptrType(f.typ)).forEach(m => {
-                                synthesizeMethod(typ.ptr, m, f);
+                                synthesizeMethod(typ.ptr, m, f, true);
                             });
                         }
                     });
